@@ -101,11 +101,8 @@ def err_kind(v):
         x = x[2][0]
     if x[0] == 'agg' and x[1].endswith('ShmError'):
         if x[2] == 'SyscallError':
-            origin = None
-            for y in psi.walk(x):
-                if y[0] == 'c' and isinstance(y[1], tuple) and y[1][0] == 's' and y[1][1].endswith('\0'):
-                    origin = y[1][1].rstrip('\0')
-            return ('Syscall', origin)
+            lits = common.c_string_literals(x)
+            return ('Syscall', lits[-1].rstrip('\0') if lits else None)
         return (x[2],)
     return None
 
@@ -126,7 +123,8 @@ class OpenModel:
             return
         self.hdr_size, self.rec_size = hdr['size'], rec['size']
         HDR.update(common.abi_names(fb)['hdr'])
-        self.engine = common.mk_engine(fb)
+        # (a validation written as a loop over a constant table of checks is unrolled: the table's length bounds it)
+        self.engine = common.mk_engine(fb, loop_unroll=8)
         self.paths = [p for p in self.engine.run(self.body) if p.kind != 'unreachable']
         chk.analysed['paths'] += len(self.paths)
         for p in self.engine.inlined:
@@ -152,6 +150,7 @@ class OpenModel:
             if p.kind == 'return' and p.value[0] == 'agg':
                 res = ('Ok',) if p.value[2] == 'Ok' else err_kind(p.value[3][0])
             # pointer formation beyond the header
-            adds = [ef for ef in p.effects if ef['kind'] == 'call' and ef['callee'].endswith('::add')]
+            adds = [ef for ef in p.effects if ef['kind'] == 'call' and ef['callee'].startswith('std::ptr::') and ef['callee'].endswith(common.PTR_ADVANCE)]
+            self.fb = fb
             self.rows.append({'path': p, 'atoms': atoms, 'unknown': unknown, 'result': res, 'adds': adds})
         self.ok = True
